@@ -59,7 +59,7 @@ Proof.
     exists a. rewrite HL. cbn. auto.
   - apply pmap_ok in H. destruct H as [a [H ->]]. apply take_c_ok in H. destruct H as [-> HL].
     exists a. rewrite HL, N2Nat.id. cbn. auto.
-  - destruct (u_s 1 i) as [b r1|e] eqn:E; [|discriminate]. destruct (proto_parse b); inversion H; subst.
+  - destruct (u_s 1 i) as [b r1|e] eqn:E; [|discriminate]. inversion H; subst.
     apply u_s_ok in E. destruct E as [-> _]. eexists; split; [reflexivity|]. rewrite enc_length. cbn. auto.
   - destruct puf; [|discriminate]. apply pmap_ok in H. destruct H as [a [H ->]]. apply take_c_ok in H.
     destruct H as [-> HL]. exists a. rewrite HL, N2Nat.id. cbn. auto.
@@ -73,7 +73,6 @@ Proof.
             repeat match goal with
                    | |- context [match ?p with xI _ => _ | xO _ => _ | xH => _ end] => destruct p
                    end; try discriminate; destruct (take _ i) as [[? ?]|]; discriminate).
-  - destruct (take 1 i) as [[a r]|]; [|discriminate]. destruct (proto_parse (be a)); discriminate.
   - destruct puf; [|discriminate]. destruct (take _ i) as [[? ?]|]; discriminate.
 Qed.
 
